@@ -22,11 +22,15 @@
 (*   ncpu    runtime.NumCPU() of the machine (an environment fact)                   *)
 (*   keep    [all, keys]  the view's attribute filter: keep every key / only keys    *)
 (*   async   observable instrument (measurements = observations in callbacks)        *)
-(* A measurement m: [o, g, s, v, cls, c]                                             *)
+(*   limit   cardinality limit of the stream (0 = none; experimental feature of the   *)
+(*           SDK, C12's subject: here only the ATTRIBUTION of exemplars under it)     *)
+(* A measurement m: [o, g, s, v, cls, c, ov]                                         *)
 (*   o   order (unique in the history), g group (measurements issued concurrently    *)
 (*       share g; their mutual order is unknown), s attribute set (set of [k, v]),   *)
 (*   v   value in 1/unit, cls "fin" | "nan" | "pinf" | "ninf",                       *)
 (*   c   context kind "none" | "unsampled" | "sampled" (valid span context)          *)
+(*   ov  the measurement was folded into the overflow attribute set (cardinality      *)
+(*       limit; decided by Fold in Trace_Exemplar from the order of the history)      *)
 (* A history of one (reader, stream) is past \o cur: the measurements before the     *)
 (* reader's previous collection and those of the open interval.                      *)
 EXTENDS Integers, Sequences, FiniteSets
@@ -39,14 +43,24 @@ MaxOf(S) == CHOOSE x \in S : \A y \in S : y <= x
 (* the view's attribute filter: point identity and FilteredAttributes *)
 KeepKeys(C) == ToSet(C.keep.keys)
 Kept(C, s) == IF C.keep.all THEN s ELSE {a \in s : a.k \in KeepKeys(C)}
-Dropped(C, s) == s \ Kept(C, s)
+(* the attribute set a measurement is aggregated into, and what the point does NOT    *)
+(* keep of it: "FilteredAttributes are the attributes recorded with the measurement   *)
+(* but filtered out of the timeseries' aggregated data" / OTel: "Exemplars MUST retain *)
+(* any attributes available in the measurement that are not preserved by aggregation   *)
+(* or view configuration" -- for a measurement folded into the overflow set that is     *)
+(* every attribute it was made with.  (Attribute values are in the harness's projection *)
+(* encoding TYPE:value.)                                                                *)
+OverflowSet == {[k |-> "otel.metric.overflow", v |-> "BOOL:true"]}
+Pt(C, m) == IF m.ov THEN OverflowSet ELSE Kept(C, m.s)
+Dropped(C, m) == m.s \ Pt(C, m)
 
 (* DefaultExemplarReservoirProviderSelector (godoc): explicit bucket histograms with  *)
 (* more than 1 bucket -> HistogramReservoir over the aggregation's boundaries;        *)
 (* exponential histograms -> FixedSize(min(20, max_buckets)); everything else ->      *)
 (* FixedSize(number of CPUs).                                                         *)
 Res(C) ==
-  IF C.res.kind # "default" THEN C.res
+  IF C.res.kind = "fixed" THEN [C.res EXCEPT !.k = IF @ < 0 THEN 0 ELSE @]     \* "at most k": nothing for k <= 0
+  ELSE IF C.res.kind # "default" THEN C.res
   ELSE IF C.agg = "hist" /\ Len(C.hb) > 0 THEN [kind |-> "hist", k |-> 0, bounds |-> C.hb]
   ELSE IF C.agg = "expo" THEN [kind |-> "fixed", k |-> Min2(20, C.maxsize), bounds |-> <<>>]
   ELSE [kind |-> "fixed", k |-> C.ncpu, bounds |-> <<>>]
@@ -61,8 +75,8 @@ FilterOK(C, m) == CASE C.filter = "on" -> TRUE
                     [] OTHER -> m.c = "sampled"
 Eligible(C, m) == Counted(C, m) /\ FilterOK(C, m)
 
-OnP(C, p, ms) == SelectSeq(ms, LAMBDA m : Kept(C, m.s) = p /\ Counted(C, m))
-Elig(C, p, ms) == SelectSeq(ms, LAMBDA m : Kept(C, m.s) = p /\ Eligible(C, m))
+OnP(C, p, ms) == SelectSeq(ms, LAMBDA m : Pt(C, m) = p /\ Counted(C, m))
+Elig(C, p, ms) == SelectSeq(ms, LAMBDA m : Pt(C, m) = p /\ Eligible(C, m))
 Orders(ms) == {ms[i].o : i \in DOMAIN ms}
 ByOrder(ms, o) == ms[CHOOSE i \in DOMAIN ms : ms[i].o = o]
 
@@ -85,7 +99,7 @@ HasNaN(ms) == \E i \in DOMAIN ms : ms[i].cls = "nan"
 (* sets observed in this collection (an aggregation that keeps older ones is C08's      *)
 (* subject: admitted here).  A point without a measurement in the interval is          *)
 (* admitted everywhere (it carries no exemplar of the interval).                        *)
-PointSets(C, ms) == {Kept(C, ms[i].s) : i \in {j \in DOMAIN ms : Counted(C, ms[j])}}
+PointSets(C, ms) == {Pt(C, ms[i]) : i \in {j \in DOMAIN ms : Counted(C, ms[j])}}
 MustExist(C, temp, past, cur) ==
   PointSets(C, cur) \cup (IF temp = "cumulative" /\ ~C.async THEN PointSets(C, past) ELSE {})
 MayExist(C, temp, past, cur) == PointSets(C, cur) \cup PointSets(C, past)
